@@ -212,7 +212,8 @@ Inductive ev :=
 | NewSequentialDict (items : list (name * nat))      (* nn.Sequential(OrderedDict(items)) *)
 | Train (m : nat) | Eval (m : nat)
 | ZeroGrad (m : nat) | Freeze (m : nat) | Unfreeze (m : nat)
-| SetGrad (p : nat).                                 (* harness stimulus: p._grad = a non-zero array *)
+| SetGrad (p : nat)                                  (* harness stimulus: p._grad = a non-zero array *)
+| SetReq (p : nat) (b : bool).                       (* p.requires_grad = b, by hand (not through a module) *)
 
 Definition step (h : heap) (e : ev) : option heap :=
   match e with
@@ -247,6 +248,7 @@ Definition step (h : heap) (e : ev) : option heap :=
       if valid_par h p then
         Some (upd_par h p (fun P => {| p_size := p_size P; p_req := p_req P; p_grad := GVal |}))
       else None
+  | SetReq p b => if valid_par h p then Some (upd_par h p (set_req b)) else None
   end.
 
 Fixpoint run (h : heap) (t : list ev) : option heap :=
